@@ -73,8 +73,13 @@ type Hooks struct {
 	Gossip func(to *Node, from p2p.PeerID, topic string, data []byte)
 	// Forged is called when a node's generator handed a block to its executer.
 	Forged func(n *Node, b *blockchain.Block)
-	// RPC is called for every sync RPC (after the response was determined).
-	RPC func(from, to p2p.PeerID, procedure string, req, resp []byte, err error)
+	// RPC is called for every sync RPC (after the response was determined; fault is the injected fault code, 0 = none).
+	RPC func(from, to p2p.PeerID, procedure string, req, resp []byte, err error, fault int)
+	// BeforeGossip is called when a gossip payload is about to be handed to node `to` (outside any node step: the
+	// hook may run node steps of its own, e.g. to offer the node something else first).
+	BeforeGossip func(to *Node, from p2p.PeerID, topic string, data []byte)
+	// BeforeNodeStep is called before every call into node n.
+	BeforeNodeStep func(n *Node, what string)
 }
 
 // Peer is anything reachable on the simulated network besides honest nodes (the adversary).
@@ -198,6 +203,17 @@ func (s *Sim) allPeers() []p2p.PeerID {
 func (s *Sim) Partition(groups map[p2p.PeerID]int) { s.group = groups }
 func (s *Sim) Heal()                               { s.group = map[p2p.PeerID]int{} }
 
+// ClearBans lifts every ban and forgets the penalty scores (ban expiry).
+func (s *Sim) ClearBans() {
+	for _, p := range s.allPeers() {
+		s.banned[p] = map[p2p.PeerID]bool{}
+		s.penalty[p] = map[p2p.PeerID]int{}
+	}
+}
+
+// RemoveExtraPeers disconnects everything that is not a node.
+func (s *Sim) RemoveExtraPeers() { s.Extra = nil }
+
 func (s *Sim) up(p p2p.PeerID) bool {
 	if n := s.nodeByPeer(p); n != nil {
 		return n.Up
@@ -320,7 +336,6 @@ func (s *Sim) Request(ctx context.Context, from, to p2p.PeerID, procedure string
 	case !s.linked(from, to):
 		respErr = errors.New("sim: peer not connected")
 	case fault == rpcTimeout:
-		simcontext.Expire(ctx)
 		respErr = errors.New("timeout")
 		s.count("rpc_timeout")
 	case fault == rpcError:
@@ -350,7 +365,11 @@ func (s *Sim) Request(ctx context.Context, from, to p2p.PeerID, procedure string
 		}
 	}
 	if s.Hooks.RPC != nil {
-		s.Hooks.RPC(from, to, procedure, data, respData, respErr)
+		s.Hooks.RPC(from, to, procedure, data, respData, respErr, fault)
+	}
+	if fault == rpcTimeout && s.linked(from, to) {
+		// last thing this (possibly helper) goroutine does: the requester wakes up on the expired deadline
+		simcontext.Expire(ctx)
 	}
 	return p2p.VerifResponse(to, respData, respErr)
 }
@@ -400,6 +419,9 @@ func (s *Sim) Step(n *Node, what string, fn func()) {
 	s.Steps++
 	s.cur = n
 	s.planRPC()
+	if s.Hooks.BeforeNodeStep != nil {
+		s.Hooks.BeforeNodeStep(n, what)
+	}
 	simrand.SetSource(func(k int) int { return 0 })
 	func() {
 		defer func() {
@@ -422,6 +444,9 @@ func (s *Sim) Step(n *Node, what string, fn func()) {
 		}()
 		fn()
 		s.collect(n, what)
+		if simkit.DetFine() && n.Up {
+			simkit.DetLog("%v step %s %q tip=%d/%x queue=%d", s.Now(), n.Name, what, n.Tip().Height, []byte(n.Tip().ID)[:4], s.q.Len())
+		}
 		s.rpcMu.Lock()
 		ll := s.livelock
 		s.livelock = nil
@@ -527,6 +552,12 @@ func (s *Sim) deliverGossip(from, to p2p.PeerID, topic string, data []byte) {
 		return
 	}
 	s.Stats["gossip_delivered"]++
+	if s.Hooks.BeforeGossip != nil {
+		s.Hooks.BeforeGossip(n, from, topic, data)
+		if !n.Up {
+			return
+		}
+	}
 	s.Step(n, "gossip "+topic, func() {
 		if s.Hooks.Gossip != nil {
 			s.Hooks.Gossip(n, from, topic, data)
